@@ -6,6 +6,7 @@
    correspondence on the fragment lists the real fragment() produced (verif hook). *)
 From Coq Require Import List String ZArith NArith Bool.
 Import ListNotations.
+From DV Require Import Gen.RestoreSrc.
 From DV Require Import Model.Tree Model.Tables Model.Skeleton Model.FragSkel Model.Values Model.Link Model.Fragment Model.Decorate Model.Restore
      Proofs.LinkProofs Proofs.LinkPanic Proofs.LinkLocal Proofs.LinkOrder Proofs.LinkCount Proofs.FragProofs Proofs.RestoreProofs
      Proofs.FragReach Proofs.DecReach Proofs.Pipeline Proofs.RestReach Proofs.EndToEnd
@@ -183,6 +184,11 @@ Example C03_nonvacuous :
   sget (l_before (link fs)) 2%N = Some SNewLine.
 Proof. vm_compute. repeat split; reflexivity. Qed.
 
+(* RestoreFile after updateImports, statement by statement (pinned text, regenerated on every run):
+   every comment group the restorer recorded is appended, once and in order, to a fresh Comments list of the restored file, before the file is registered *)
+Theorem C03_restorefile_hands_every_comment_group_to_the_file : restorefile_finishes_as_the_model = true.
+Proof. vm_compute. reflexivity. Qed.
+
 Print Assumptions C03_fragments_cover_every_part.
 Print Assumptions C03_restorer_mirrors_decorator.
 Print Assumptions C03_token_values_survive_both_conversions.
@@ -199,3 +205,4 @@ Print Assumptions C03_decorate_keeps_every_comment.
 Print Assumptions C03_tables_fit_together.
 Print Assumptions C03_pipeline_keeps_every_comment.
 Print Assumptions C03_restorer_renders_each_comment_once.
+Print Assumptions C03_restorefile_hands_every_comment_group_to_the_file.
